@@ -164,13 +164,16 @@ func C03(c *vf.Check) {
 	runFam(c, famSpec{id: "C03", fam: "scope", name: "F_scope", sizeQ: "3", sizeT: "3", tapeQ: "3", tapeT: "4", callsQ: 5, callsT: 6,
 		keys: fullKeys, lazyT: true,
 		rule:   "every program of F_scope up to MaxSize: shadowing declarations a := a + 10 in nested blocks and in if / switch / for initialisers, a++ (also as post statement), a closure f := func() { a += 100 } created before any yield and called after, effects and yields observing the variables in scope; x every tape; non-trivial as in C01",
-		assume: []string{"no closure captures a three-clause loop variable across iterations (the only place where go<=1.21 and go>=1.22 scoping differ)"}})
+		assume: []string{"closures capturing a three-clause loop variable across iterations (where go<=1.21 and go>=1.22 scoping differ) are the business of F_loopvar, judged under go >= 1.22 semantics (the language version of the scratch modules)"}})
 	// range loops: `=` forms assign the function-level variables (observed after the loop), `:=` forms do not
 	runFam(c, famSpec{id: "C03", fam: "rscope", name: "F_rscope", sizeQ: "3", sizeT: "4", tapeQ: "2", tapeT: "2", callsQ: 7, callsT: 8,
 		keys: fullKeys, budget: 60, rule: ""})
 	// a variable read by a yielded composite literal (struct value / pointer to a fresh object) is read when the yield is reached
 	runFam(c, famSpec{id: "C03", fam: "box", name: "F_boxv", sizeQ: "3", sizeT: "4", tapeQ: "2", tapeT: "3", callsQ: 5, callsT: 6,
 		keys: fullKeys, opts: srcOpts{Box: true, BoxVal: true}, rule: ""})
+	// loop variables captured by closures: every iteration of `for a := ..; ..; a++` has its own a (go >= 1.22)
+	runFam(c, famSpec{id: "C03", fam: "loopvar", name: "F_loopvar", sizeQ: "4", sizeT: "4", tapeQ: "3", tapeT: "5", callsQ: 5, callsT: 6,
+		keys: fullKeys, budget: 60, flags: []string{"KF35"}, rule: ""})
 }
 
 // C05: YieldFrom splices the delegate's remaining elements, lazily and in order.
